@@ -835,6 +835,13 @@ def _c02a_by_facts(chk, rs, its, desc):
     def has(xs, c):
         return [x for x in xs if x["cmp"] == c]
     for b, variant, fa, ex in rows:
+        # total >= to and total <= to for every pair of the same iteration is total == to for every pair
+        for x in list(fa):
+            if x["cmp"] == GE:
+                for y in fa:
+                    if y["cmp"] == ("Le", (0,), (1,)) and y["it"] is x["it"]:
+                        fa.append({"it": x["it"], "cmp": EQ, "how": "both >= and <= hold for every pair"})
+                        break
         how = "for every pair: %s; for some pair: %s" % ([(x["cmp"][0], x["how"]) for x in fa], [(x["cmp"][0], x["how"]) for x in ex])
         if variant == "Standard":
             chk.ob("C02.a", "read_site/projection/Standard<=exact", bool(has(fa, EQ)), f.loc(b),
